@@ -34,32 +34,97 @@ def accepted_set(F):
     Cc = app("sparse::SparseMatrix::num_cols", H)
     D = Cc - R
     rets = [e for e in tr.events if e.callee == "<return>"]
-    from .symx import evaluate, NotEvaluable, single_atom
-    for e in rets:
-        if e.args != [("bool", False)]:
-            raise AnalysisError("is_staircase: early return of something other than `false`")
-        if not e.loops or e.loops[0][0] != "iter" or "iter_all" not in repr(e.loops[0][2]):
-            raise AnalysisError("is_staircase: rejecting return outside a loop over iter_all()")
-    if not rets:
-        raise AnalysisError("is_staircase: no rejecting return found")
-    jn, kn = rets[0].loops[0][1]
-    # The accepted set is read *semantically*: the rejecting path conditions are evaluated as formulas on a grid of
-    # (row j, column k) around the diagonal of a representative shape; what is not rejected in the parity part is accepted.
+    from .symx import evaluate, NotEvaluable, single_atom, atom_fn, atom_args, unkey
+    from .idioms import as_closure
     Rn, Cn = 9, 23
     Dn = Cn - Rn
     base = {single_atom(R): Rn, single_atom(Cc): Cn}
-
-    def rejected(j, k):
-        env = dict(base)
-        env[jn] = j
-        env[kn] = k
+    count_ok = False
+    if rets:
+        # form 1: a loop over iter_all() that returns false on an unexpected entry and counts the others
         for e in rets:
+            if e.args != [("bool", False)]:
+                raise AnalysisError("is_staircase: early return of something other than `false`")
+            if not e.loops or e.loops[0][0] != "iter" or "iter_all" not in repr(e.loops[0][2]):
+                raise AnalysisError("is_staircase: rejecting return outside a loop over iter_all()")
+        jn, kn = rets[0].loops[0][1]
+
+        def rejected(j, k):
+            env = dict(base)
+            env[jn] = j
+            env[kn] = k
+            for e in rets:
+                try:
+                    if all(bool(evaluate(g, env)) == pol for g, pol in e.guards):
+                        return True
+                except NotEvaluable as ex:
+                    raise AnalysisError("is_staircase: condition not evaluable: %s" % ex)
+            return False
+
+        def counted(j, k):
+            env = dict(base)
+            env[jn] = j
+            env[kn] = k
+            n_ = 0
+            for nm, val, loops, guards in tr.assign_sites:
+                if loops and val == var(nm.split("#")[0] + "@loop") + num(1):
+                    if all(bool(evaluate(g, env)) == pol for g, pol in guards):
+                        n_ += 1
+            return n_
+        ctr = [nm.split("#")[0] for nm, val, loops, guards in tr.assign_sites if loops and val == var(nm.split("#")[0] + "@loop") + num(1)]
+        if len(set(ctr)) == 1:
+            X = var(ctr[0] + "@after")
+            count_ok = ret in (app("eq", R * num(2) - num(1), X), app("eq", X, R * num(2) - num(1))) and \
+                tr.carried_init.get([nm for nm, *_ in tr.assign_sites if nm.split("#")[0] == ctr[0]][0]) == num(0)
+            # the counter advances exactly once per accepted entry of the parity part and never for the systematic part
             try:
-                if all(bool(evaluate(g, env)) == pol for g, pol in e.guards):
-                    return True
+                count_ok = count_ok and all(counted(j, k) == (0 if (k < Dn or rejected(j, k)) else 1) for j in range(Rn) for k in range(0, Cn))
+            except NotEvaluable as ex:
+                raise AnalysisError("is_staircase: counting condition not evaluable: %s" % ex)
+    else:
+        # form 2: iter_all().filter(in parity part).try_fold(0, |count, (j, k)| expected.then_some(count + 1)).is_some_and(|c| c == 2n-1)
+        ra = single_atom(ret) if isinstance(ret, Poly) else None
+        if not (ra and atom_fn(ra) == "std::option::Option::<T>::is_some_and"):
+            raise AnalysisError("is_staircase: neither a rejecting loop nor a try_fold over the entries")
+        tf = single_atom(atom_args(ra)[0]) if isinstance(atom_args(ra)[0], Poly) else None
+        if not (tf and atom_fn(tf) == "std::iter::Iterator::try_fold" and isinstance(tf[2], tuple) and tf[2][0] == "iterdesc"):
+            raise AnalysisError("is_staircase: the entries are not folded with try_fold")
+        d = tf[2][1]
+        filt = None
+        if d[0] == "filter":
+            filt, d = d[2], d[1]
+        if "iter_all" not in repr(d) or d[0] != "elems":
+            raise AnalysisError("is_staircase: try_fold does not run over iter_all()")
+        J, K = var("j#g"), var("k#g")
+        try:
+            fval = tr.apply(as_closure(F, tr, filt), [("tuple", [J, K])]) if filt is not None else ("bool", True)
+            step = tr.apply(as_closure(F, tr, tf[4]), [var("count#g"), ("tuple", [J, K])])
+            fin = tr.apply(as_closure(F, tr, atom_args(ra)[1]), [var("count#g")])
+        except Unsupported as e:
+            raise AnalysisError("is_staircase: closure unreadable: %s" % e)
+        if not (isinstance(step, tuple) and len(step) == 3 and step[0] == "opt" and step[2] == var("count#g") + num(1)):
+            raise AnalysisError("is_staircase: the fold step is not `expected.then_some(count + 1)`")
+        sa = single_atom(step[1])
+        acc_cond = unkey(atom_args(sa)[0]) if sa and atom_fn(sa) == "bool_to_option" else None
+        if acc_cond is None:
+            raise AnalysisError("is_staircase: acceptance condition unreadable")
+        jn, kn = single_atom(J), single_atom(K)
+
+        def ev_(v, j, k):
+            env = dict(base)
+            env[jn] = j
+            env[kn] = k
+            try:
+                return bool(evaluate(v, env))
             except NotEvaluable as ex:
                 raise AnalysisError("is_staircase: condition not evaluable: %s" % ex)
-        return False
+
+        def rejected(j, k):
+            return ev_(fval, j, k) and not ev_(acc_cond, j, k)
+        count_ok = fin in (app("eq", R * num(2) - num(1), var("count#g")), app("eq", var("count#g"), R * num(2) - num(1))) and tf[3] == ("P", num(0))
+        # every entry of the parity part that is accepted is counted once: the count covers exactly the filtered entries
+        if any(not ev_(fval, j, k) for j in range(Rn) for k in range(Dn, Cn)):
+            count_ok = False
     first = {num(k - Dn) for k in range(Dn, Cn) if not rejected(0, k)}
     rest_by_j = []
     for j in range(1, Rn):
@@ -71,7 +136,4 @@ def accepted_set(F):
     # entries left of the parity part must never be rejected
     if any(rejected(j, k) for j in range(Rn) for k in range(0, Dn)):
         first = first | {num(-1000)}
-    # count: num_checked incremented once per parity entry, compared with 2*rows - 1
-    count_ok = ret == app("eq", R * num(2) - num(1), var("num_checked@after")) or \
-        ret == app("eq", var("num_checked@after"), R * num(2) - num(1))
     return {"first": first, "rest": rest, "count_ok": count_ok, "site": b.span}
